@@ -104,6 +104,30 @@ def run(ctx):  # noqa: C901, PLR0912, PLR0915
     # resident object change only through update_object (R2), never through a value shared with a copy
     common.copies_are_deep(ctx, 'C11.R2')
     common.no_mutation_while_iterating(ctx, 'C11.R3', ['sdc11073.multikey', 'sdc11073.mdib.mdibbase'])
+    common.table_object_sets_are_private(ctx, 'C11.R1')
+    keys_all = {attr for tbl in index_key_attrs(repo).values() for (attr, _kind) in tbl.values() if attr}
+    n_add = 0
+    for q_, fi_ in sorted(repo.funcs.items()):
+        if not q_.startswith(('sdc11073.mdib.', 'sdc11073.provider.subscriptionmgr')):
+            continue
+        ga = cfg_of(fi_)
+        for an, ac in [(n_, c_) for n_ in ga.real_nodes() for c_ in n_.calls()
+                       if (call_name(c_) or '').startswith('add_object') and c_.args]:
+            n_add += 1
+            obj_txt = unparse(ac.args[0])
+            late = [m for m in ga.real_nodes() if m.kind == 'stmt' and isinstance(m.stmt, (ast.Assign, ast.AugAssign)) and
+                    any(isinstance(t, ast.Attribute) and t.attr in keys_all and unparse(t.value) == obj_txt
+                        for t in (m.stmt.targets if isinstance(m.stmt, ast.Assign) else [m.stmt.target])) and
+                    ga.path_exists(an, m, normal_only=True)]
+            fixed = [u for u, c_ in ga.nodes_calling('update_object') + ga.nodes_calling('update_object_no_lock')]
+            late = [m for m in late if not any(ga.path_exists(m, u, normal_only=True) for u in fixed)]
+            if late:
+                ctx.ob('C11.R2', f'{fi_.name}: key attribute of {obj_txt} assigned after insertion', False,
+                       f'{fi_.cls.name + "." if fi_.cls else ""}{fi_.name} assigns {[unparse(m.stmt)[:50] for m in late][:2]} after '
+                       f'{unparse(ac)[:50]} put the object into the table: the index was built with the old key, the lookup by '
+                       f'the new key misses an object that a scan finds', fi=fi_, node=late[0].stmt)
+    ctx.ob('C11.R2', 'key attributes are complete before insertion', True, f'{n_add} insertions checked')
+    ctx.floor('C11.R2', n_add, 5, 'add_object calls in the MDIB and subscription code')
     # ------------------------------------------------------------------ R2
     n_upd = 0
     for fi in repo.funcs.values():
